@@ -140,6 +140,11 @@ def op_strategies(nparts, ngroups, profile):
             [-5, -1, 1, 5, 100])).map(list),
         'tick': st.just(['tick']),
         'cycle': st.just(['cycle']),
+        # macro: a server with instances fails, a cycle runs, the clock moves
+        # relative to a retention timeout, another cycle runs
+        'downseq': st.tuples(idx, idx, st.sampled_from([-5, -1, 1, 5, 100]))
+        .map(lambda t: ['macro', [['down', t[0]], ['cycle'],
+                                  ['adv_ret', t[1], t[2]], ['cycle']]]),
     }
     if not ngroups:
         ops.pop('idg')
@@ -147,9 +152,19 @@ def op_strategies(nparts, ngroups, profile):
     return ops
 
 
+def flatten(ops):
+    out = []
+    for op in ops:
+        if op[0] == 'macro':
+            out.extend(op[1])
+        else:
+            out.append(op)
+    return out
+
+
 DEFAULT_WEIGHTS = {
     'app': 10, 'clone': 2, 'rm': 2, 'prio': 1, 'move': 1, 'srv': 1, 'rmsrv': 1,
-    'readd': 1, 'down': 2, 'up': 2, 'freeze': 1, 'unfreeze': 1, 'bl': 1,
+    'readd': 1, 'down': 2, 'up': 2, 'downseq': 0, 'freeze': 1, 'unfreeze': 1, 'bl': 1,
     'renew': 1, 'idg': 1, 'rmidg': 1, 'strat': 1, 'adv': 2, 'adv_ret': 1,
     'tick': 1, 'cycle': 8,
 }
@@ -189,7 +204,7 @@ def cell_case(draw, profile=None):
     pre = draw(st.lists(strategies['app'], min_size=pre_lo, max_size=pre_hi))
     ops = draw(st.lists(one_op, min_size=profile.get('min_ops', 4),
                         max_size=profile.get('max_ops', 40)))
-    ops = pre + [['cycle']] + ops
+    ops = pre + [['cycle']] + flatten(ops)
     ops.append(['cycle'])
     case['ops'] = ops
     return case
@@ -313,6 +328,9 @@ def e2_op_strategies(nparts, ngroups, profile):
         'sched': st.just(['sched']),
         'cycle': st.just(['cycle']),
         'restart': st.just(['restart']),
+        'downseq': st.tuples(idx, idx, st.sampled_from([-5, -1, 1, 5, 100]))
+        .map(lambda t: ['macro', [['down', t[0]], ['cycle'],
+                                  ['adv_ret', t[1], t[2]], ['cycle']]]),
     }
     if not ngroups:
         ops.pop('idg')
@@ -324,7 +342,7 @@ def e2_op_strategies(nparts, ngroups, profile):
 
 E2_WEIGHTS = {
     'app': 10, 'rm': 2, 'rmlast': 1, 'finish': 1, 'prio': 1, 'srv': 1, 'rmsrv': 1,
-    'down': 2, 'up': 2, 'reboot': 1, 'resize': 1, 'repart': 1, 'reparent': 1,
+    'down': 2, 'up': 2, 'downseq': 0, 'reboot': 1, 'resize': 1, 'repart': 1, 'reparent': 1,
     'state': 1, 'allocs': 1, 'idg': 1, 'rmidg': 1, 'bl': 1, 'blackout': 1,
     'cellev': 1, 'running': 1, 'adv': 2, 'adv_ret': 1, 'tickreboots': 1,
     'checkreboot': 1, 'integrity': 1, 'enq': 1, 'proc': 1, 'ev': 3,
@@ -374,7 +392,7 @@ def master_case(draw, profile=None):
     pre = draw(st.lists(strategies['app'], min_size=pre_lo, max_size=pre_hi))
     ops = draw(st.lists(one_op, min_size=profile.get('min_ops', 4),
                         max_size=profile.get('max_ops', 30)))
-    case['ops'] = pre + [['cycle']] + ops
+    case['ops'] = pre + [['cycle']] + flatten(ops)
     return case
 
 
